@@ -197,6 +197,32 @@ CLAIMED['C09'] = dict(
          'write+read.',
     design_ref='4 (C09)')
 
+CLAIMED['C07'] = dict(
+    technique='bounded symbolic execution of the real bound classes with '
+              'symbolic fields; ellipsoid algebra discharged by z3 nlsat '
+              'from the defining equations of inverse / Cholesky / sqrt / '
+              'roots; composition by contracts (members of unions and '
+              'nautilus bounds are uninterpreted predicates)',
+    text='Over the reals and within the dimension bounds the solver shows '
+         'for every class that sampled points satisfy contains() and lie in '
+         'the cube where restricted, that ellipsoids and mixtures enclose '
+         'their construction points, that this survives split/trim, and '
+         'that neural / nautilus bounds never contain a point outside their '
+         'outer bound - for all point sets, matrices and draws at once.',
+    design_ref='4 (C07)')
+CLAIMED['C08'] = dict(
+    technique='bounded symbolic execution of the real Union / NautilusBound '
+              'sampling code; proposal probabilities, acceptance thresholds '
+              'and volume formulas extracted from the run and decided by z3 '
+              '(nlsat for the exp-domain identities)',
+    text='An analytic certificate instead of histograms: z3 shows that '
+         'members are proposed proportionally to volume, that a proposal of '
+         'multiplicity m is kept with probability exactly 1/m using its own '
+         'draw, that counters and reported volumes follow, also through the '
+         'pool merge; hence the proposal density is 1/sum V on the whole '
+         'union. The statistical reading of the property is not claimed.',
+    design_ref='4 (C08)')
+
 NOT_APPLICABLE = {
     'C04': 'statement about the distribution of whole-program outputs over '
            'seed ensembles; no bounded symbolic input space decides it '
